@@ -72,8 +72,19 @@ pub fn matches_hgignore_filter(hgignore_filters: &Vec<HgignoreFilter>, file_name
             None => continue,
         };
 
-        if hgignore_filter.regex.is_match(&relative_path) {
-            matched = true;
+        // a path is ignored if the pattern matches it or one of the directories it lies in
+        // (the search may start inside an ignored directory)
+        let mut candidate = relative_path.as_str();
+        loop {
+            if hgignore_filter.regex.is_match(candidate) {
+                matched = true;
+                break;
+            }
+
+            match candidate.rfind('/') {
+                Some(idx) => candidate = &candidate[..idx],
+                None => break,
+            }
         }
     }
 
